@@ -21,7 +21,10 @@ REQUIRED_COUNTERS = ['roundtrip_geo', 'roundtrip_grid', 'mirror', 'standalone']
 
 
 def plan(tier, seed):
-    return [{'n': N[tier]} for _ in range(SHARDS[tier])]
+    specs = [{'n': N[tier]} for _ in range(SHARDS[tier])]
+    if tier == 'thorough':
+        specs += [{'n': 0, 'lattice': [i, 8], 'ell': ['grs80', 'ans', 'intl24', 'wgs84'][i % 4]} for i in range(8)]
+    return specs
 
 
 def _one(ns, ctx, case):
@@ -37,6 +40,10 @@ def run_shard(spec, ctx):
     reach = tmwork.reach_setup(ns)
     rnd = random.Random('%s-%s-%s' % (ID, spec['seed'], spec['shard']))
     try:
+        if spec.get('lattice'):
+            for case in tmwork.lattice_cases(spec['lattice'][0], spec['lattice'][1], spec['ell']):
+                tmwork.judge_forward(ns, ctx, case, ('RT',))
+            ctx.sample({'kind': '1x1 degree lattice x 3 zone modes', 'part': spec['lattice'], 'ell': spec['ell']})
         for i in range(spec['n']):
             case = tmwork.gen_geo_case(rnd, coordapi=False)
             if i < 1:
